@@ -54,6 +54,10 @@ class Literal(Exception):
         return "{%d}" % self.value
 
 
+class PreparedLiteral(bytes):
+    """Bytes already formatted as a literal ({size+}CRLF followed by the data)."""
+
+
 def authentication_required(meth):
     """Simple class method decorator.
 
@@ -224,10 +228,15 @@ class Client:
         """
         ret = []
         for a in args:
+            if isinstance(a, PreparedLiteral):
+                ret += [a]
+                continue
             if isinstance(a, bytes):
-                if self.__size_expr.match(a):
-                    ret += [a]
+                if b"\r" in a or b"\n" in a or b"\0" in a or len(a) > 1024:
+                    # can't be sent as a quoted string
+                    ret += [self.__prepare_content(a)]
                 else:
+                    a = a.replace(b"\\", b"\\\\").replace(b'"', b'\\"')
                     ret += [b'"' + a + b'"']
                 continue
             ret += [bytes(str(a).encode("utf-8"))]
@@ -242,8 +251,10 @@ class Client:
         :param content: script content as str or bytes
         :return: transformed script as bytes
         """
-        bcontent: bytes = content.encode("utf-8")
-        return b"{%d+}%s%s" % (len(bcontent), CRLF, bcontent)
+        bcontent: bytes = (
+            content.encode("utf-8") if isinstance(content, str) else content
+        )
+        return PreparedLiteral(b"{%d+}%s%s" % (len(bcontent), CRLF, bcontent))
 
     def __send_command(
         self,
